@@ -347,4 +347,33 @@ MUTANTS = [
     Mutant("repair-getitem", KT, "        if kmer >= len(self):\n            raise AlphabetError(\n                f\"k-mer code {kmer} is out of bounds \"\n                f\"for the given KmerAlphabet\"\n            )\n\n        kmer_ptr = <uint32*>self._ptr_array[kmer]",
            "        if kmer < 0 or kmer >= len(self):\n            raise AlphabetError(\n                f\"k-mer code {kmer} is out of bounds \"\n                f\"for the given KmerAlphabet\"\n            )\n\n        kmer_ptr = <uint32*>self._ptr_array[kmer]",
            "R1.scalar-kmer-two-sided", "KmerTable.__getitem__", kind="repair"),
+    # ---- one seeded fault per remaining rule ----
+    Mutant("count-kmer-off-by-one", KT, "                kmer = kmer_array[i]\n", "                kmer = kmer_array[i] + 1\n", "R1.index-classified", "KmerTable.count"),
+    Mutant("bucket-selection-params-swapped", KT,
+           "    @cython.cdivision(True)\n    @cython.boundscheck(False)\n    @cython.wraparound(False)\n    def match_kmer_selection(self, positions, kmers):",
+           "    @cython.cdivision(True)\n    @cython.boundscheck(False)\n    @cython.wraparound(False)\n    def match_kmer_selection(self, kmers, positions):",
+           "R2.same-parameters", "match_kmer_selection"),
+    Mutant("bucket-str-dropped", KT,
+           "    def __str__(self):\n        return _to_string(self)\n\n\n    def __getnewargs_ex__(self):\n        return (self._n_buckets, self._kmer_alph), {}",
+           "    def __getnewargs_ex__(self):\n        return (self._n_buckets, self._kmer_alph), {}", "R2.same-public-interface", "__str__"),
+    Mutant("bucket-get-kmers-renamed", KT,
+           "                    bucket_ptr += EntrySize.BUCKETS\n\n        return np.asarray(counts)\n\n\n    @cython.boundscheck(False)\n    @cython.wraparound(False)\n    def get_kmers(self):",
+           "                    bucket_ptr += EntrySize.BUCKETS\n\n        return np.asarray(counts)\n\n\n    @cython.boundscheck(False)\n    @cython.wraparound(False)\n    def get_kmer_codes(self):",
+           "R2.same-public-interface", "get_kmers"),
+    Mutant("bucket-from-kmers-single-validator", KT,
+           "        _check_multiple_kmer_bounds(kmers, kmer_alphabet)\n\n        ref_ids = _compute_ref_ids(ref_ids, kmers)\n        masks = _compute_masks(masks, kmers)\n\n        if n_buckets is None:",
+           "        _check_kmer_bounds(kmers, kmer_alphabet)\n\n        ref_ids = _compute_ref_ids(ref_ids, kmers)\n        masks = _compute_masks(masks, kmers)\n\n        if n_buckets is None:",
+           "R2.same-validators", "from_kmers"),
+    Mutant("cinit-k-not-set", KT, "        self._k = kmer_alphabet.k\n        self._ptr_array = np.zeros(len(self._kmer_alph), dtype=np.uint64)\n",
+           "        self._ptr_array = np.zeros(len(self._kmer_alph), dtype=np.uint64)\n", "R3.cinit-sets-attributes", "KmerTable.__cinit__"),
+    Mutant("bucket-cinit-n-buckets-local", KT,
+           "        if len(self._kmer_alph) < n_buckets:\n            self._n_buckets = len(self._kmer_alph)\n        else:\n            self._n_buckets = n_buckets\n        self._ptr_array = np.zeros(self._n_buckets, dtype=np.uint64)\n",
+           "        if len(self._kmer_alph) < n_buckets:\n            n_buckets = len(self._kmer_alph)\n        self._ptr_array = np.zeros(n_buckets, dtype=np.uint64)\n",
+           "R3.cinit-sets-attributes", "BucketKmerTable.__cinit__"),
+    Mutant("getstate-raw-pointers", KT, "        return (self._kmer_alph,), {}\n\n\n    def __getstate__(self):\n        return _pickle_c_arrays(self._ptr_array)\n",
+           "        return (self._kmer_alph,), {}\n\n\n    def __getstate__(self):\n        return np.asarray(self._ptr_array)\n", "R3.state-paired", "KmerTable.__setstate__"),
+    Mutant("bucket-setstate-args-swapped", KT,
+           "        return _pickle_c_arrays(self._ptr_array)\n\n    def __setstate__(self, state):\n        _unpickle_c_arrays(self._ptr_array, state)\n",
+           "        return _pickle_c_arrays(self._ptr_array)\n\n    def __setstate__(self, state):\n        _unpickle_c_arrays(state, self._ptr_array)\n",
+           "R3.state-paired", "BucketKmerTable.__setstate__"),
 ]
